@@ -272,6 +272,14 @@ func (c *Canonicalizer) reconstructBlockInstructions(fn *ssa.Function) {
 		combined = append(combined, heads[b]...)
 		combined = append(combined, bodies[b]...)
 		// Appending in discovery order (which is usually topological for hoists) preserves dependencies.
+		// Discovery order follows the source layout of the loop body (which arm of an if comes
+		// first).  Hoisted calls are pure and take loop-invariant arguments, so they do not depend
+		// on each other: when the tail holds nothing else, order them by what they compute.
+		if allHoistedCalls(tails[b], c.hoistedInstrs) {
+			sort.SliceStable(tails[b], func(i, j int) bool {
+				return hoistKey(tails[b][i].(*ssa.Call)) < hoistKey(tails[b][j].(*ssa.Call))
+			})
+		}
 		combined = append(combined, tails[b]...)
 
 		if t, ok := terminators[b]; ok {
@@ -359,6 +367,57 @@ func (c *Canonicalizer) hoistInvariantCalls(fn *ssa.Function) {
 			}
 		}
 	}
+}
+
+func allHoistedCalls(instrs []ssa.Instruction, hoisted map[ssa.Instruction]bool) bool {
+	for _, in := range instrs {
+		if _, ok := in.(*ssa.Call); !ok || !hoisted[in] {
+			return false
+		}
+	}
+	return len(instrs) > 1
+}
+
+// hoistKey orders hoisted calls by callee and arguments; an argument is identified by
+// what it is (constant, global, n-th parameter or free variable) or, for a value computed
+// outside the loop, by where it is defined.
+func hoistKey(call *ssa.Call) string {
+	var sb strings.Builder
+	if b, ok := call.Call.Value.(*ssa.Builtin); ok {
+		sb.WriteString(b.Name())
+	}
+	for _, arg := range call.Call.Args {
+		sb.WriteByte('|')
+		switch a := arg.(type) {
+		case *ssa.Const:
+			sb.WriteString("c:" + a.String())
+		case *ssa.Global:
+			sb.WriteString("g:" + a.String())
+		case *ssa.Parameter:
+			for i, p := range a.Parent().Params {
+				if p == a {
+					fmt.Fprintf(&sb, "p:%04d", i)
+				}
+			}
+		case *ssa.FreeVar:
+			for i, fv := range a.Parent().FreeVars {
+				if fv == a {
+					fmt.Fprintf(&sb, "f:%04d", i)
+				}
+			}
+		case ssa.Instruction:
+			idx := 0
+			for i, in := range a.Block().Instrs {
+				if in == a {
+					idx = i
+				}
+			}
+			fmt.Fprintf(&sb, "v:%06d:%06d", a.Block().Index, idx)
+		default:
+			sb.WriteString("?")
+		}
+	}
+	return sb.String()
 }
 
 func (c *Canonicalizer) computeSCCs(fn *ssa.Function) [][]*ssa.BasicBlock {
